@@ -13,7 +13,13 @@ the option record and file-system facts.  Tie = correspondence, in a scratch tre
                   on random option combinations: exit / files written / stdout compared with what the model's
                   plan prescribes, the content being produced by the LIBRARY call the plan names
                   (`TagDatabase(**plan).get_json()`, `Recommendations(**plan)`, `cli_tag.main(**plan)`);
- * `module-entry` — once per run `python -m paroxython.cli …` with PYTHONPATH=$PAROXY_REPO.
+ * `module-entry` — once per run `python -m paroxython.cli …` with PYTHONPATH=$PAROXY_REPO;
+ * `collect-twice` — `collect`, then `collect` AGAIN onto the SAME output (explicit `-o` .json / .sqlite / .sql and the
+                  default DIRECTORY_db.json; in-process and `python -m paroxython.cli`) with a glob / skip selecting a
+                  smaller, larger, disjoint or equal set, after deleting / adding a source file, or from another
+                  directory: the file must hold exactly the database the library builds for the SECOND run (JSON text
+                  = `get_json()`, SQLite rows = rows of a fresh `write_sqlite`), listing exactly the files the second
+                  glob / skip select.
 
 docopt, glob, file I/O and the library calls themselves are outside the model (exercised only).
 """
@@ -588,6 +594,250 @@ def stream_collect(ctx, drv, cli, ws, n):
                         "model": model}, limit=12)
 
 
+# ------------------------------------------------------------------------------- collect twice onto the same output
+
+TWICE_POOL = {
+    "alpha.py": "x = 1\nprint(x)\n",
+    "beta.py": "for i in range(3):\n    print(i)  # paroxython: my_hint\n",
+    "gamma.py": "def f(n):\n    return n + 1\n",
+    "sub/eps.py": "import alpha\ny = [1, 2]\n",
+}
+TWICE_OTHER = {"alpha.py": "while True:\n    break\n", "zeta.py": "z = 'a' + 'b'\n", "sub/eta.py": "assert 1 + 1 == 2\n"}
+TWICE_EXTRA = ("omega.py", "w = {1: 2}\nprint(len(w))\n")
+TWICE_GLOBS = [None, "*.py", "**/*.py", "sub/*.py", "**/[ab]*.py", "[!a]*.py", "**/*a.py"]
+TWICE_SKIPS = [None, r"beta\.py", r"(alpha|beta)\.py", r"[^a].*", r"a.*", r".*", r"eps\.py", r"(gamma|eps)\.py"]
+TWICE_OUTPUTS = ["out/t.json", "out/t.sqlite", "out/t.sql", None]  # None: the documented default DIRECTORY_db.json
+TWICE_VARIATIONS = ["smaller", "larger", "disjoint", "equal", "delete", "add", "other-dir"]
+
+
+def twice_is_output(rel):
+    return rel.startswith("out/") or rel.endswith("_db.json")
+
+
+def twice_apply(root, tree):
+    """Bring the sources of the case tree to `tree` (rel -> text); what earlier `collect` runs wrote stays on disk."""
+    for q in sorted(root.rglob("*"), reverse=True):
+        rel = str(q.relative_to(root))
+        if q.is_file() and not twice_is_output(rel) and rel not in tree:
+            q.unlink()
+    for rel, text in tree.items():
+        q = root / rel
+        q.parent.mkdir(parents=True, exist_ok=True)
+        if not q.is_file() or q.read_text() != text:  # unchanged sources keep their timestamp
+            q.write_text(text)
+    for d in ("out", "deep", "progs", "other"):
+        (root / d).mkdir(exist_ok=True)
+
+
+def twice_selection(directory, g, s, spec):
+    """The property's own listing: sorted glob result minus the names the skip pattern fully matches."""
+    import regex
+
+    eg, es = g or spec["defaultGlob"], s or spec["defaultSkip"]
+    return [str(q.relative_to(directory)) for q in sorted(directory.glob(eg)) if q.is_file() and not regex.fullmatch(es, q.name)]
+
+
+def sqlite_rows(path):
+    con = sqlite3.connect(path)
+    try:
+        tables = sorted(r[0] for r in con.execute("SELECT name FROM sqlite_master WHERE type='table'"))
+        return {t: sorted((list(r) for r in con.execute(f"SELECT * FROM {t}")), key=repr) for t in tables}
+    finally:
+        con.close()
+
+
+def twice_invoke(cli, form, argv, cwd):
+    if form == "in-process":
+        return run_cli(cli, argv, cwd)
+    env = dict(os.environ, PYTHONPATH=str(core.REPO))
+    code, out, _ = core.run([sys.executable, "-m", "paroxython.cli"] + list(argv), cwd=cwd, env=env, timeout=120)
+    return {"exit": code, "exc": None, "stdout": out, "stderr": ""}
+
+
+def twice_run(cli, drv, mdb, root, case, spec):
+    """Run the two commands of `case` on the case tree. Returns (problem or None, report)."""
+    import paroxython.cli_collect as cc
+
+    if root.exists():
+        shutil.rmtree(root)
+    root.mkdir(parents=True)
+    lib_tmp = root.parent / "__twice_lib.sqlite"
+    report = {}
+    for step in (1, 2):
+        twice_apply(root, case[f"tree{step}"])
+        argv, cwd = case[f"argv{step}"], Path(os.path.normpath(root / case[f"cwd{step}"]))
+        args = docopt_args(cc, "collect", argv[1:])
+        model = drv.call("c18.model.collect", args=args, world=world_of(root, cwd))
+        before = snapshot(root)
+        impl = twice_invoke(cli, case["form"], argv, cwd)
+        after = snapshot(root)
+        written = sorted(os.path.normpath(k) for k in after if before.get(k) != after[k])
+        report[f"model{step}"] = model
+        if "plan" not in model:
+            return "machinery: the model does not plan a run for this command", report
+        plan = model["plan"]
+        kind, path = plan["out"]
+        target = None if path is None else os.path.normpath(str((cwd / path) if not os.path.isabs(path) else Path(path)))
+        report[f"impl{step}"] = {"exit": str(impl["exit"]), "exc": impl["exc"], "written": [os.path.relpath(w, root) for w in written]}
+        if impl["exit"] not in (None, 0) or impl["exc"]:
+            return f"run {step}: the command stopped ({impl['exit'] or impl['exc']}) where the plan runs", report
+        if [w for w in written if w != target] or (target is not None and not Path(target).is_file()):
+            return f"run {step}: files written {written}, plan says {[target] if target else []}", report
+        if step == 1:
+            if target is not None:
+                report["first_run_target"] = os.path.relpath(target, root)
+            continue  # a single write onto a fresh path is the business of the `collect` stream
+        tx = plan["taxonomy_path"]
+        with in_dir(cwd), quiet():
+            db = mdb.TagDatabase(
+                directory=Path(plan["directory"]), ignore_timestamps=plan["ignore_timestamps"],
+                cleanup_strategy=plan["cleanup_strategy"], skip_pattern=plan["skip_pattern"], glob_pattern=plan["glob_pattern"],
+                print_performances=plan["print_performances"], taxonomy_path=Path(tx) if tx is not None else None)
+            lib_json = db.get_json()
+            lib_tmp.unlink(missing_ok=True)  # the reference export always goes onto a FRESH path
+            db.write_sqlite(lib_tmp)
+        lib_rows = sqlite_rows(lib_tmp)
+        lib_tmp.unlink()
+        expected = twice_selection(Path(os.path.normpath(cwd / plan["directory"])), plan["glob_pattern"], plan["skip_pattern"], spec)
+        report["spec"] = {"format": kind, "target": None if target is None else os.path.relpath(target, root),
+                          "programs_selected_by_glob_and_skip": expected, "library_programs": list(json.loads(lib_json)["programs"])}
+        if list(json.loads(lib_json)["programs"]) != expected:
+            return "run 2: the library's database does not list the files selected by the glob and skip patterns", report
+        if kind == "json":
+            text = Path(target).read_text()
+            try:
+                listed = list(json.loads(text)["programs"])
+            except Exception:  # noqa
+                listed = "<not JSON>"
+            report["impl2"]["programs"] = listed
+            if text != lib_json:
+                return (f"run 2: the JSON file at the output path is not TagDatabase(...).get_json() for the second run "
+                        f"(programs listed {listed}, expected {expected})"), report
+        elif kind == "sqlite":
+            rows = sqlite_rows(target)
+            listed = sorted(r[0] for r in rows.get("program", []))
+            report["impl2"]["programs"] = listed
+            report["impl2"]["row_counts"] = {t: len(v) for t, v in rows.items()}
+            report["spec"]["row_counts"] = {t: len(v) for t, v in lib_rows.items()}
+            if rows != lib_rows:
+                stale = {t: [r for r in rows.get(t, []) if r not in lib_rows.get(t, [])][:3] for t in rows}
+                missing = {t: [r for r in lib_rows[t] if r not in rows.get(t, [])][:3] for t in lib_rows}
+                report["impl2"]["rows_not_in_a_fresh_export"] = {t: [[str(x)[:60] for x in r] for r in v] for t, v in stale.items() if v}
+                report["impl2"]["rows_of_a_fresh_export_missing"] = {t: [[str(x)[:60] for x in r] for r in v] for t, v in missing.items() if v}
+                return (f"run 2: the SQLite database at the output path does not hold the rows of a fresh export of the second run's "
+                        f"database (programs listed {listed}, expected {sorted(expected)}; row counts "
+                        f"{report['impl2']['row_counts']} vs {report['spec']['row_counts']})"), report
+        elif written:
+            return f"run 2: no format for this output, yet files were written: {written}", report
+    return None, report
+
+
+def twice_case(rng, root, spec, output, variation, form):
+    """One case: sources, the two command lines. Selections are computed on the materialised tree."""
+    names = ["alpha.py", "beta.py"] + [n for n in ("gamma.py", "sub/eps.py") if rng.random() < 0.75]
+    tree1 = {"progs/" + n: TWICE_POOL[n] for n in names}
+    tree1.update({"other/" + n: t for n, t in TWICE_OTHER.items()})
+    tree1["mytaxo.tsv"] = EXPLICIT_TAXONOMY
+    if rng.random() < 0.4:
+        tree1["taxonomy.tsv"] = SIBLING_TAXONOMY
+    tree2 = dict(tree1)
+    if root.exists():
+        shutil.rmtree(root)
+    root.mkdir(parents=True)
+    twice_apply(root, tree1)
+    pairs = [(g, s) for g in TWICE_GLOBS for s in TWICE_SKIPS]
+    sel = {gs: frozenset(twice_selection(root / "progs", gs[0], gs[1], spec)) for gs in pairs}
+    relation = {
+        "smaller": lambda a, b: sel[b] < sel[a] and sel[b],
+        "larger": lambda a, b: sel[a] < sel[b] and sel[a],
+        "disjoint": lambda a, b: sel[a] and sel[b] and not (sel[a] & sel[b]),
+        "equal": lambda a, b: sel[a] == sel[b] and len(sel[a]) > 1,
+    }
+    dir1 = dir2 = "progs"
+    if variation in relation:
+        gs1, gs2 = rng.choice([(a, b) for a in pairs for b in pairs if relation[variation](a, b)])
+    else:
+        gs1 = rng.choice([gs for gs in pairs if len(sel[gs]) >= 2])
+        gs2 = gs1 if rng.random() < 0.7 else rng.choice([gs for gs in pairs if sel[gs]])
+        if variation == "delete":
+            del tree2["progs/" + rng.choice(sorted(sel[gs1]))]
+        elif variation == "add":
+            tree2["progs/" + rng.choice(["", "sub/"]) + TWICE_EXTRA[0]] = TWICE_EXTRA[1]
+        elif output is None:  # other-dir onto the DEFAULT path: the directory of that name now holds other programs
+            tree2 = {k: v for k, v in tree2.items() if not k.startswith("progs/")}
+            tree2.update({"progs/" + n: t for n, t in TWICE_OTHER.items()})
+        else:
+            dir2, gs2 = "other", rng.choice([(None, None), ("**/*.py", None), (None, r"zeta\.py"), ("*.py", None)])
+
+    def command(step, directory, gs):
+        cwd = rng.choice([".", ".", "deep"])
+        here = Path(os.path.normpath(root / cwd))
+        spell = lambda rel: str(root / rel) if rng.random() < 0.2 else os.path.relpath(root / rel, here)  # noqa
+        opts = {}
+        if output is not None:
+            opts["--output"] = spell(output)
+        if gs[0] is not None:
+            opts["--glob"] = gs[0]
+        if gs[1] is not None:
+            opts["--skip"] = gs[1]
+        if rng.random() < 0.8:
+            opts["--no_timestamp"] = True
+        if rng.random() < 0.25:
+            opts["--taxonomy"] = spell("mytaxo.tsv")
+        if rng.random() < 0.25:
+            opts["--cleanup"] = rng.choice(["full", "none"])
+        d = spell(directory)
+        if output is None and Path(d).name in ("", ".."):
+            d = os.path.relpath(root / directory, here)
+        return ["collect"] + argv_of(rng, opts, d), cwd
+
+    argv1, cwd1 = command(1, dir1, gs1)
+    argv2, cwd2 = command(2, dir2, gs2)
+    return {"kind": "collect-twice", "variation": variation, "form": form, "root": str(root), "tree1": tree1, "tree2": tree2,
+            "argv1": argv1, "cwd1": cwd1, "argv2": argv2, "cwd2": cwd2}
+
+
+def stream_collect_twice(ctx, drv, cli, mdb, base, n_random):
+    """`collect`, then `collect` AGAIN onto the SAME output path with another selection / other sources / another
+    directory: the file must hold exactly the database of the SECOND run (nothing left of the first, nothing missing)."""
+    spec = drv.call("c18.spec.names", names=[])
+    root = base / "twice" / "case"
+    matrix = [(o, v, "in-process") for v in TWICE_VARIATIONS for o in TWICE_OUTPUTS]
+    matrix += [("out/t.sqlite", "smaller", "python -m paroxython.cli"), (None, "delete", "python -m paroxython.cli")]
+    if ctx.tier != "quick":
+        matrix += [(o, v, "python -m paroxython.cli") for o, v in (("out/t.sql", "disjoint"), ("out/t.json", "other-dir"),
+                                                                   ("out/t.sqlite", "delete"), (None, "smaller"))]
+    for _ in range(n_random):
+        matrix.append((ctx.rng.choice(TWICE_OUTPUTS + ["out/t.db", "out/t.sqlite"]), ctx.rng.choice(TWICE_VARIATIONS), "in-process"))
+    for output, variation, form in matrix:
+        case = twice_case(ctx.rng, root, spec, output, variation, form)
+        problem, report = twice_run(cli, drv, mdb, root, case, spec)
+        fmt = (report.get("spec") or {}).get("format") or ("default" if output is None else Path(output).suffix)
+        ctx.count("collect-twice", json.dumps([case["argv1"], case["cwd1"], case["argv2"], case["cwd2"], sorted(case["tree1"]), sorted(case["tree2"])]),
+                  nontrivial=variation != "equal")
+        ctx.dist(f"collect-twice:{variation}")
+        ctx.dist("collect-twice:out:" + ("default" if output is None else Path(output).suffix))
+        ctx.dist(f"collect-twice:form:{form}")
+        if problem:
+            ctx.cov["disagreements_checked"] += 1
+            if problem.startswith("machinery"):
+                ctx.broken.append("corr:collect-twice")
+                ctx.notes.append(json.dumps({"problem": problem, "argv1": case["argv1"], "argv2": case["argv2"]})[:600])
+                return
+            ctx.violations.append({
+                "what": f"paroxython collect, twice onto the same output ({variation}, {fmt}, {form}): {problem}",
+                "replay": dict(case, impl={"run1": report.get("impl1"), "run2": report.get("impl2")},
+                               model={"run1": report.get("model1"), "run2": report.get("model2")}, spec=report.get("spec")),
+                "signature": None})
+            return
+        if len([s for s in ctx.cov["samples"] if s.get("stream") == "collect-twice"]) < 2 and variation in ("smaller", "other-dir"):
+            ctx.sample({"stream": "collect-twice", "variation": variation, "form": form, "argv1": case["argv1"], "argv2": case["argv2"],
+                        "impl": report.get("impl2"), "model": report.get("model2", {}).get("plan", {}).get("out"),
+                        "spec": report.get("spec")}, limit=14)
+    shutil.rmtree(base / "twice", ignore_errors=True)
+
+
+
 # ------------------------------------------------------------------------------- recommend
 
 BANNER = re.compile(r"\A(?:Using database '[^\n]*'\.\n|Using pipeline '[^\n]*'\.\n|Using an empty pipeline\.\n)+")
@@ -872,6 +1122,7 @@ def run(ctx):
         stream_recommend(ctx, drv, cli, ws, 250 if quick else 3000)
         stream_collect(ctx, drv, cli, ws, 70 if quick else 800)
         stream_module_entry(ctx, drv, cli, ws)
+        stream_collect_twice(ctx, drv, cli, mdb, root, 0 if quick else 150)
     finally:
         drv.close()
     ctx.cov["rule"] = (
@@ -879,7 +1130,11 @@ def run(ctx):
         "directory contents × glob × skip (non-trivial: the skip pattern removes some but not all globbed files); "
         "collect / recommend / tag — random option combinations (short/long spellings) over a generated scratch tree with "
         "random presence of sibling taxonomy, databases and pipelines; non-trivial = the command runs (a plan, not an exit) "
-        "with at least one non-default option or file-system alternative in play"
+        "with at least one non-default option or file-system alternative in play; collect-twice — every output "
+        "(-o .json / .sqlite / .sql, default path) × every variation (second selection smaller / larger / disjoint / equal, "
+        "source deleted / added, other directory) of a second `collect` onto the output of a first one, over 2–4 tiny "
+        "programs, plus `python -m paroxython.cli` forms (and random extras in thorough); the output is compared with a "
+        "FRESH library export of the second run; non-trivial = the two runs do not select the same set"
     )
     ctx.cov["proved"] = [n.split(".")[-1] for n, ax in ctx.cov.get("theorems", {}).items() if ax != "DOES-NOT-CHECK"]
     ctx.cov["exercised_only"] = [
@@ -887,6 +1142,8 @@ def run(ctx):
         "pathlib.glob, regex.fullmatch on the user's skip pattern, file reading/writing",
         "that the real entry points write/print exactly what the library call named by the plan produces "
         "(TagDatabase.get_json / write_sqlite, Recommendations.get_markdown / selection, cli_tag.main)",
+        "that a `collect` onto an output path which already holds the database of an earlier `collect` leaves exactly "
+        "the database of the later run (no stale programs / labels / taxa, none missing), for JSON and SQLite",
         "python -m paroxython.cli = paroxython.cli.main()",
     ]
     ctx.cov["trusted_base"] = core.BASE_TRUST + [
@@ -962,6 +1219,20 @@ def replay(ctx, path):
                 except BaseException as exc:  # noqa
                     spec = {"exc": type(exc).__name__}
             print("spec  :", spec, "(what the library call named by the plan produces)")
+            return 0
+        if kind == "collect-twice":
+            case_root = root / "twice" / "case"
+            if obj.get("root"):  # absolute paths of the run that stored the case -> this scratch tree
+                for k in ("argv1", "argv2"):
+                    obj[k] = [a.replace(obj["root"], str(case_root)) for a in obj[k]]
+            spec = drv.call("c18.spec.names", names=[])
+            problem, report = twice_run(cli, drv, mdb, case_root, obj, spec)
+            print("run 1 :", obj["argv1"], "in", obj["cwd1"], "| sources:", sorted(k for k in obj["tree1"]))
+            print("run 2 :", obj["argv2"], "in", obj["cwd2"], "| sources:", sorted(k for k in obj["tree2"]))
+            print("impl  :", report.get("impl2"))
+            print("model :", report.get("model2"))
+            print("spec  :", report.get("spec"), "(a fresh library export for the second run)")
+            print("verdict:", problem or "the output holds exactly the second run's database")
             return 0
         if kind == "listing":
             d = root / "ls"
